@@ -2,6 +2,9 @@ import WindVerif.Drv.Common
 import WindVerif.Drv.Dll
 import WindVerif.Drv.Cache
 import WindVerif.Drv.Sorted
+import WindVerif.Drv.SpanSet
+import WindVerif.Drv.Buffers
+import WindVerif.Drv.Generic
 open WindVerif.Drv
 
 def machines : List (String × Machine) := [
@@ -9,7 +12,13 @@ def machines : List (String × Machine) := [
   ("lru", lruMachine),
   ("lfu", lfuMachine),
   ("sset", ssetMachine),
-  ("smap", smapMachine)
+  ("smap", smapMachine),
+  ("spanset", spansetMachine),
+  ("imap", imapMachine),
+  ("buf", bufMachine),
+  ("pbuf", pbufMachine),
+  ("ring", ringMachine),
+  ("generic", genericMachine)
 ]
 
 def main (args : List String) : IO UInt32 := do
